@@ -126,7 +126,7 @@ pub const C_500ADA: u64 = 500_000_000;
 pub const C_2P63: u64 = 0x8000_0000_0000_0000;
 pub const C_2P63M1: u64 = 0x7fff_ffff_ffff_ffff;
 
-/// 25 certificates: the 19 CDDL kinds, with/without explicit amounts, key and script credentials.
+/// 28 certificates: the 19 CDDL kinds, with/without explicit amounts, key and script credentials.
 pub fn cert_alphabet() -> Vec<CertSpec> {
     let drep = DRep::new_key_hash(&kh(3));
     let mut v = Vec::new();
@@ -176,6 +176,8 @@ pub fn cert_alphabet() -> Vec<CertSpec> {
     push("reg_cert(key3,2^64-1)", Certificate::new_reg_cert(&StakeRegistration::new_with_explicit_deposit(&cred_key(3), &bn(u64::MAX))).unwrap(), Dep::Explicit(u64::MAX), Dep::None, vec![3], None);
     push("stake_delegation(script2)", Certificate::new_stake_delegation(&StakeDelegation::new(&cred_script(2), &kh(2))), Dep::None, Dep::None, vec![], Some(2));
     push("vote_delegation(script2)", Certificate::new_vote_delegation(&VoteDelegation::new(&cred_script(2), &DRep::new_always_abstain())), Dep::None, Dep::None, vec![], Some(2));
+    // 27: a legacy (deposit-less) registration of a script credential: the ledger runs no script for it
+    push("stake_reg_legacy(script2)", Certificate::new_stake_registration(&StakeRegistration::new(&cred_script(2))), Dep::KeyParam, Dep::None, vec![], None);
     v
 }
 
